@@ -827,3 +827,50 @@ package mcp
 //@   modifies *
 //@   ensures @cached-read-dropped calls(sess) == 1 && typeIs(callResult(sess, 1, 0), *ClientSession) && at(got, req.Params) != nil ==> calls(drop) == 1 && callArg(drop, 1, 1) == at(got, req.Params.URI)
 //@   assert at call h: @cached-read-dropped-before-the-application-hears calls(sess) == 1 && (typeIs(callResult(sess, 1, 0), *ClientSession) && at(got, req.Params) != nil ==> calls(drop) == 1)
+
+// ---------------------------------------------------------------------------------------------
+// C16: the typed tool wrapper
+// ---------------------------------------------------------------------------------------------
+
+// The handler built by toolForErr: the typed handler runs at most once and only after the arguments passed
+// applySchema against the input schema (defaults applied, validation on); what it receives is the decoding of exactly
+// the JSON applySchema returned. Invalid or undecodable arguments give a tool-level error result and the handler is
+// not run. Structured output is the JSON applySchema returned for the marshalled handler output, checked against the
+// output schema; output that fails it is an error, not a result.
+//@ func toolForErr$1 [C16]
+//@   track applySchema as schema
+//@   track json.Unmarshal as decode
+//@   track h as handler
+//@   track json.Marshal as encode
+//@   track SetError as toolError
+//@   callee h: modifies *
+//@   constant inputResolved, outputResolved, elemZero
+//@   requires req != nil && req.Params != nil
+//@   modifies *
+//@   ensures @handler-runs-only-on-valid-arguments calls(handler) <= 1 && (calls(handler) == 1 ==> calls(schema) >= 1 && callResult(schema, 1, 1) == nil && callArg(schema, 1, 1) == inputResolved && !callArg(schema, 1, 2))
+//@   ensures @invalid-arguments-are-a-tool-error calls(schema) >= 1 && callResult(schema, 1, 1) != nil ==> calls(handler) == 0 && result.1 == nil && result.0 != nil && calls(toolError) == 1 && callArg(toolError, 1, 0) == result.0
+//@   ensures @handler-sees-the-validated-arguments calls(handler) == 1 && len(callResult(schema, 1, 0)) > 0 ==> calls(decode) == 1 && callResult(decode, 1, 0) == nil && callArg(decode, 1, 0) == callResult(schema, 1, 0)
+//@   ensures @undecodable-arguments-are-a-tool-error calls(decode) >= 1 && callResult(decode, 1, 0) != nil ==> calls(handler) == 0 && result.1 == nil && result.0 != nil && calls(toolError) == 1
+//@   ensures @output-is-validated-against-the-output-schema calls(schema) <= 2 && (calls(schema) == 2 ==> calls(handler) == 1 && calls(encode) == 1 && callResult(encode, 1, 1) == nil && callArg(schema, 2, 0) == callResult(encode, 1, 0) && callArg(schema, 2, 1) == outputResolved && callArg(schema, 2, 2))
+//@   ensures @invalid-output-is-an-error-not-a-result calls(schema) == 2 && callResult(schema, 2, 1) != nil ==> result.0 == nil && result.1 != nil
+//@   snapshot afterHandler after call h
+//@   ensures @structured-content-is-the-validated-json calls(schema) == 2 && callResult(schema, 2, 1) == nil ==> result.1 == nil && result.0 != nil && typeIs(result.0.StructuredContent, json.RawMessage) && result.0.StructuredContent.(json.RawMessage) == callResult(schema, 2, 0)
+//@   ensures @text-rendering-when-the-handler-gave-no-content calls(schema) == 2 && callResult(schema, 2, 1) == nil && (callResult(handler, 1, 0) == nil || at(afterHandler, callResult(handler, 1, 0).Content == nil)) ==> len(result.0.Content) == 1 && typeIs(result.0.Content[0], *TextContent)
+//@   ensures @handler-result-object-is-kept calls(schema) == 2 && callResult(schema, 2, 1) == nil && callResult(handler, 1, 0) != nil ==> result.0 == callResult(handler, 1, 0)
+
+//@ func isObjectJSON [C16]
+//@   pure
+
+// applySchema: with a schema, JSON is handed back only if the schema's Validate accepted the value, after defaults
+// were applied to that same value (when it is an object); a validation error is returned as such; without a schema
+// the data passes through unchanged. Only library-owned state is written.
+//@ func applySchema [C16]
+//@   track ApplyDefaults as defaults
+//@   track Validate as validate
+//@   modifies extern
+//@   ensures @no-schema-passes-through resolved == nil ==> result.1 == nil && result.0 == data
+//@   ensures @result-only-if-the-schema-validates resolved != nil && result.1 == nil ==> calls(validate) == 1 && callResult(validate, 1, 0) == nil && callArg(validate, 1, 0) == resolved
+//@   ensures @validation-failure-is-an-error calls(validate) == 1 && callResult(validate, 1, 0) != nil ==> result.1 != nil && len(result.0) == 0
+//@   ensures @defaults-applied-to-the-validated-value calls(defaults) <= 1 && (calls(defaults) == 1 && calls(validate) == 1 ==> callArg(defaults, 1, 0) == resolved && callArg(defaults, 1, 1) == callArg(validate, 1, 1))
+//@   ensures @defaults-failure-is-an-error calls(defaults) == 1 && callResult(defaults, 1, 0) != nil ==> result.1 != nil && calls(validate) == 0
+//@   assert at call Validate: @defaults-come-first calls(validate) == 0
